@@ -98,8 +98,10 @@ func history(rng *rand.Rand, out *Out, steps int, enf uint64) {
 			h.send(false)
 		case k < 40:
 			h.send(true)
-		case k < 62:
+		case k < 59:
 			h.receive()
+		case k < 62:
+			h.oddProbe()
 		case k < 70:
 			h.replace()
 		case k < 73:
@@ -255,6 +257,10 @@ func (h *hist) receiverKind(b *nom.AccountBlock) string {
 
 func (h *hist) send(toContract bool) {
 	rng := h.rng
+	if !toContract && rng.Intn(6) == 0 {
+		h.oddSend(rng.Intn(oddKinds)) // addressed to the zero address, to nobody, to the sender, ... (odd.go)
+		return
+	}
 	kp := h.actors[rng.Intn(len(h.actors))]
 	b := &nom.AccountBlock{BlockType: nom.BlockTypeUserSend, Address: kp.Address, TokenStandard: types.ZnnTokenStandard, Amount: big.NewInt(int64(1 + rng.Intn(1000)))}
 	if !toContract {
